@@ -16,6 +16,8 @@ Line-protocol driver for C18 (decimal amount strings <-> 18-decimal integers).
                            a<int> (AddFT), u<int> (SubFT), g (GetFT); one answer token per step:
                            s | a | u:<0|1>:<int|nil> | g:<int|nil>   (NILPANIC if Go would deref nil)
 
+  xfer <int> <hex-string>  service.ChangeAssets, source holding <int>, one target, amount string
+                           -> xfer <ok|fail> <src after> <dst after> <response, blanks as _>
   stake <u64>              Float64ToBigInt(float64(n))    -> ok <int> | PANIC
   f64 <bits>               Float64ToBigInt(Float64frombits(bits)) -> ok <int> | nan-panic
   u64 <u64>                Uint64ToBigInt(n)              -> ok <int>
@@ -155,6 +157,22 @@ def step (_ : Unit) (line : String) : Unit × String :=
     match n.toInt? with
     | some n => ((), showRes "err" (evmValue n))
     | none => ((), "bad-op")
+  | ["xfer", n, h] =>
+    match n.toInt?, ofHex? h with
+    | some n, some b =>
+      let s := strOfBytes b
+      let huge : Bool := match parseFloat s with
+        | some t => (match t with
+          | .fin _ m e => (bitLen m : Int) + e > bigLimit
+          | _ => false)
+        | none => false
+      if huge then ((), "unmodelled")
+      else match gameTransfer n s with
+        | none => ((), "NILPANIC")
+        | some (ok, a, b, r) =>
+          ((), "xfer " ++ (if ok then "ok" else "fail") ++ " " ++ showResTok a ++ " " ++ showResTok b ++ " " ++
+            String.ofList (r.map (fun c => if c = ' ' then '_' else c)))
+    | _, _ => ((), "bad-op")
   | ["stake", n] =>
     match n.toNat? with
     | some n => if n < 2 ^ 64 then ((), showRes "err" (stakeToBigInt n)) else ((), "bad-op")
